@@ -633,6 +633,11 @@ package modules
 //@   at after (*RWMutex).Lock ghost was = m.status
 //@   at store status assert was == StatusOffline && value == StatusStarting
 //@   at after context.WithCancel ghost ctxNew = true
+// a context handed out earlier (work started while preparing) is cancelled before it is replaced:
+// the replaced context is out of reach of the stop sequence
+//@   ghost var oldCancelled bool = false
+//@   at optional call dynamic ghost oldCancelled = true
+//@   at call context.WithCancel assert m.cancelCtx != nil ==> oldCancelled
 //@   at call (*AtomicBool).UnSet assert arg0 == m.stopFlag
 //@   at call (*AtomicBool).UnSet ghost unflagged = true
 //@   at go ghost spawned = spawned + 1
@@ -648,10 +653,14 @@ package modules
 //@   ghost var sent int = 0
 //@   at after (*Module).runCtrlFnWithTimeout ghost ferr = ret0
 //@   at call (*Module).runCtrlFnWithTimeout assert arg3 == m.startFn
-//@   at store status assert ferr == nil && value == StatusOnline
+//@   at store status assert value == (ferr == nil ? StatusOnline : StatusOffline)
 //@   at close assert ferr == nil && chan == m.startComplete
 //@   at send reports ghost sent = sent + 1
 //@   at send reports assert value != nil && value.module == m && value.err == ferr
+// when the result is reported the module is online, or - its start routine failed - offline again:
+// a module left in the starting state would keep the modules it depends on from ever stopping
+// ('when Shutdown returns no module is online, even if another module failed to start')
+//@   at send reports assert m.status == (ferr == nil ? StatusOnline : StatusOffline)
 //@   ensures sent == 1
 
 // a management pass: rebuild the wanted set, stop what is no longer wanted, then start what is
@@ -666,6 +675,13 @@ package modules
 //@   at call startModules assert step == 2
 //@   at call startModules ghost step = 3
 //@   at return assert step == 3 || step == 0
+// the pass returns without error only if neither phase reported one ('after a management pass
+// returns without error, exactly the wanted modules are online' rests on this)
+//@   ghost var stopErr error = nil
+//@   ghost var startErr error = nil
+//@   at after stopModules ghost stopErr = ret0
+//@   at after startModules ghost startErr = ret0
+//@   ensures r0 == nil ==> stopErr == nil && startErr == nil
 
 // Shutdown: stops all modules (once) and returns only afterwards
 //@ func Shutdown
@@ -826,6 +842,16 @@ package modules
 //@   at store overtime assert front != nil && value == !asType(front.Value, *Task).overtime
 //@   at call (*Task).runWithLocking assert ot && front != nil && arg0 == asType(front.Value, *Task)
 //@   at call (*Task).StartASAP assert !ot && front != nil && arg0 == asType(front.Value, *Task)
+// a task is promoted or run from the schedule only when its own time has come: the wake-up may
+// have been set for another entry (entries leave the schedule without a notification)
+//@   ghost var left time.Duration = 1
+//@   ghost var leftW uint64 = 0
+//@   ghost var leftE int64 = 0
+//@   at optional after time.Until ghost left = ret0
+//@   at optional after time.Until ghost leftW = arg0.wall
+//@   at optional after time.Until ghost leftE = arg0.ext
+//@   at call (*Task).runWithLocking assert left <= 0 && leftW == arg0.executeAt.wall && leftE == arg0.executeAt.ext
+//@   at call (*Task).StartASAP assert left <= 0 && leftW == arg0.executeAt.wall && leftE == arg0.executeAt.ext
 //@   loop 0 invariant true
 
 // the next wake-up of the scheduler is the execution time of the first entry of the schedule
@@ -835,6 +861,11 @@ package modules
 //@   ghost var fr *list.Element = nil
 //@   at after (*List).Front ghost fr = ret0
 //@   at call time.Until assert fr != nil && arg0.wall == asType(fr.Value, *Task).executeAt.wall && arg0.ext == asType(fr.Value, *Task).executeAt.ext
+// ... and not longer: the timer is set with at most the time left for that entry (waking up
+// earlier is harmless, the schedule handler looks at the entry's time again)
+//@   ghost var d time.Duration = 0
+//@   at after time.Until ghost d = ret0
+//@   at call time.After assert arg0 <= d
 
 // schedule insertion: before the first other entry that is due later, else at the end; an
 // entry that is already scheduled is moved, not inserted twice
